@@ -285,3 +285,23 @@ MUTANTS += [
     {"name": "c14-promotion-check-skipped", "prop": "C14", "checks": ["C14"],
      "edits": [(AR, "        if self.master_pid != os.getppid():", "        if self.master_pid != os.getppid() and os.getppid() == 1:")]},
 ]
+
+MUTANTS += [
+    # ---- C13 -------------------------------------------------------------------------------
+    {"name": "c13-nr-conns-not-decremented-on-close-branch", "prop": "C13", "checks": ["C13"],
+     "edits": [(GT, "            else:\n                self.nr_conns -= 1\n                conn.close()\n        except Exception:", "            else:\n                conn.close()\n        except Exception:")]},
+    {"name": "c13-keep-remove-race-guard-removed", "prop": "C13", "checks": ["C13"],
+     "edits": [(GT, "                try:\n                    self._keep.remove(conn)\n                except ValueError:\n                    return", "                try:\n                    self._keep.remove(conn)\n                except ValueError:\n                    pass")]},
+    {"name": "c13-murder-keepalived-closes-early", "prop": "C13", "checks": ["C13"],
+     "edits": [(GT, "            delta = conn.timeout - now\n            if delta > 0:", "            delta = conn.timeout - now\n            if delta > self.cfg.keepalive / 2.0:")]},
+    {"name": "c13-no-unregister-before-dispatch", "prop": "C13", "checks": ["C13"],
+     "edits": [(GT, "        with self._lock:\n            self.poller.unregister(client)\n            if conn.initialized:", "        with self._lock:\n            if conn.initialized:")]},
+    {"name": "c13-keepalive-never-reaped", "prop": "C13", "checks": ["C13"],
+     "edits": [(GT, "            if not self.is_parent_alive():\n                break\n\n            # handle keepalive timeouts\n            self.murder_keepalived()", "            if not self.is_parent_alive():\n                break")]},
+    {"name": "c13-keepalive-conn-not-reregistered", "prop": "C13", "checks": ["C13"],
+     "edits": [(GT, "                    self._keep.append(conn)\n                    self.poller.register(conn.sock, selectors.EVENT_READ,\n                                         partial(self.on_client_socket_readable, conn))", "                    self._keep.append(conn)")]},
+    {"name": "c13-capacity-recheck-removed", "prop": "C13", "checks": ["C13"],
+     "edits": [(GT, "            if self.nr_conns >= self.worker_connections:\n                return\n            sock, client = listener.accept()", "            sock, client = listener.accept()")]},
+    {"name": "c13-murder-closes-without-unregister-and-count", "prop": "C13", "checks": ["C13"],
+     "edits": [(GT, "            else:\n                self.nr_conns -= 1\n                # remove the socket from the poller", "            else:\n                # remove the socket from the poller")]},
+]
